@@ -63,7 +63,7 @@ def expected_tree(nodes):
 
 def decode_real(blob):
     from dissect.hypervisor.descriptor.hyperv import HyperVFile
-    return HyperVFile(io.BytesIO(blob))
+    return HyperVFile(io.BytesIO(blob) if isinstance(blob, (bytes, bytearray)) else blob)
 
 
 def compare(ctx, x, nodes, hf, attrs, det):
@@ -132,11 +132,12 @@ def short(v):
 
 def build_file(x, nodes, rng):
     tables, fobjs, lay = E.plan_tables(nodes, ntables_free=set(x["free"]), stale=set(x["stale"]), newer_first=x["newerFirst"],
-                                       pad_rng=rng if rng.random() < 0.5 else None, flag_rng=rng if rng.random() < 0.6 else None)
+                                       pad_rng=rng if rng.random() < 0.5 else None, flag_rng=rng if rng.random() < 0.6 else None,
+                                       far=rng.choice([0, 0, 0, (1 << 32) + 0x5000, (3 << 32) + 0x1000]))   # objects beyond 4 GiB
     hi, lo = rng.choice([(9, 4), (0x9000, 5), (0xFFFF, 1), (0x8001, 0), (2, 1)])
     seqs = (hi, lo) if x["hdr"] == 1 else (lo, hi)
     # key tables and file objects may be listed in a chain of object tables (any distribution, any order)
-    return E.build(tables, fobjs, hdr_seqs=seqs, chain=rng.choice([1, 1, 2, 3]), chain_rng=rng if rng.random() < 0.5 else None)
+    return E.build(tables, fobjs, hdr_seqs=seqs, chain=rng.choice([1, 1, 2, 3]), chain_rng=rng if rng.random() < 0.7 else None)
 
 
 def run(ctx):
